@@ -75,16 +75,30 @@ func (c *Ctx) spillName(a *ssa.Alloc) string {
 
 var theCtx *Ctx
 
-func describe(v ssa.Value) string { return describeN(v, 0) }
+var descCache = map[ssa.Value]string{}
+
+// describe renders a value as an access path / expression. SSA value graphs are acyclic except
+// through φ, which is rendered by name, so the recursion terminates; results are memoised.
+func describe(v ssa.Value) string {
+	if v == nil {
+		return "<nil>"
+	}
+	if s, ok := descCache[v]; ok {
+		return s
+	}
+	s := describeN(v, 0)
+	if len(s) > 600 {
+		s = s[:600] + "…"
+	}
+	descCache[v] = s
+	return s
+}
 
 func describeN(v ssa.Value, depth int) string {
 	if v == nil {
 		return "<nil>"
 	}
-	if depth > 12 {
-		return "…"
-	}
-	d := func(x ssa.Value) string { return describeN(x, depth+1) }
+	d := func(x ssa.Value) string { return describe(x) }
 	switch x := v.(type) {
 	case *ssa.Parameter:
 		return x.Name()
@@ -183,6 +197,19 @@ func describeN(v ssa.Value, depth int) string {
 		return "next(" + d(x.Iter) + ")"
 	case *ssa.Range:
 		return "range(" + d(x.X) + ")"
+	case *ssa.Select:
+		var cs []string
+		for _, st := range x.States {
+			if st.Send != nil {
+				cs = append(cs, d(st.Chan)+"<-")
+			} else {
+				cs = append(cs, "<-"+d(st.Chan))
+			}
+		}
+		if !x.Blocking {
+			cs = append(cs, "default")
+		}
+		return "select(" + strings.Join(cs, "|") + ")"
 	}
 	return v.Name()
 }
@@ -488,8 +515,46 @@ func reachableFrom(from, target ssa.Instruction) bool {
 // ---- module call graph ---------------------------------------------------------------------
 
 type callGraph struct {
-	out   map[*ssa.Function]map[*ssa.Function]bool
-	impls map[string][]*ssa.Function // "(iface).Method" -> concrete module methods
+	out       map[*ssa.Function]map[*ssa.Function]bool
+	impls     map[string][]*ssa.Function // "(iface).Method" -> concrete module methods
+	addrTaken []*ssa.Function            // module functions used as values (closures, method values, func idents)
+}
+
+// dynCallees resolves a call through a function value: all address-taken module functions whose
+// signature is identical to the called value's (function values of types declared outside the
+// module, e.g. context.CancelFunc, are not resolved).
+func (g *callGraph) dynCallees(cc *ssa.CallCommon) []*ssa.Function {
+	if cc.IsInvoke() || cc.StaticCallee() != nil {
+		return nil
+	}
+	if _, ok := cc.Value.(*ssa.Builtin); ok {
+		return nil
+	}
+	if mc, ok := cc.Value.(*ssa.MakeClosure); ok {
+		return []*ssa.Function{mc.Fn.(*ssa.Function)}
+	}
+	t := cc.Value.Type()
+	if n, ok := t.(*types.Named); ok && n.Obj().Pkg() != nil {
+		pp := n.Obj().Pkg().Path()
+		if pp != modPath && !strings.HasPrefix(pp, modPath+"/") {
+			return nil
+		}
+	}
+	sig, ok := t.Underlying().(*types.Signature)
+	if !ok {
+		return nil
+	}
+	var out []*ssa.Function
+	for _, f := range g.addrTaken {
+		fs := f.Signature
+		if fs.Recv() != nil {
+			continue
+		}
+		if types.Identical(types.NewSignatureType(nil, nil, nil, fs.Params(), fs.Results(), fs.Variadic()), types.NewSignatureType(nil, nil, nil, sig.Params(), sig.Results(), sig.Variadic())) {
+			out = append(out, f)
+		}
+	}
+	return out
 }
 
 func buildCallGraph(c *Ctx) *callGraph {
@@ -541,12 +606,48 @@ func buildCallGraph(c *Ctx) *callGraph {
 		g.impls[key] = res
 		return res
 	}
+	taken := map[*ssa.Function]bool{}
+	for _, fn := range c.ModFns {
+		for _, ins := range instrs(fn) {
+			if mc, ok := ins.(*ssa.MakeClosure); ok {
+				if f := mc.Fn.(*ssa.Function); inModule(f) {
+					taken[f] = true
+				}
+			}
+			cc := callOf(ins)
+			for _, op := range ins.Operands(nil) {
+				if f, ok := (*op).(*ssa.Function); ok && inModule(f) && f.Blocks != nil {
+					if cc != nil && cc.Value == ssa.Value(f) {
+						isArg := false
+						for _, a := range cc.Args {
+							if a == ssa.Value(f) {
+								isArg = true
+							}
+						}
+						if !isArg {
+							continue
+						}
+					}
+					taken[f] = true
+				}
+			}
+		}
+	}
+	for f := range taken {
+		g.addrTaken = append(g.addrTaken, f)
+	}
+	sort.Slice(g.addrTaken, func(i, j int) bool { return g.addrTaken[i].String() < g.addrTaken[j].String() })
 	for _, fn := range c.ModFns {
 		m := map[*ssa.Function]bool{}
 		g.out[fn] = m
 		for _, ins := range instrs(fn) {
 			if mc, ok := ins.(*ssa.MakeClosure); ok {
 				m[mc.Fn.(*ssa.Function)] = true
+			}
+			if cc := callOf(ins); cc != nil {
+				for _, f := range g.dynCallees(cc) {
+					m[f] = true
+				}
 			}
 			cc := callOf(ins)
 			if cc == nil {
@@ -655,4 +756,38 @@ func rootFn(f *ssa.Function) *ssa.Function {
 		f = f.Parent()
 	}
 	return f
+}
+
+// guardKey names an instruction by the branch facts every path to it must take; it is stable
+// under edits elsewhere in the function (unlike an ordinal or a line number).
+func guardKey(ins ssa.Instruction) string {
+	var parts []string
+	eds := edgeDoms(ins)
+	// outermost guard first: a block that dominates another comes earlier
+	sort.SliceStable(eds, func(i, j int) bool { return eds[i].b != eds[j].b && eds[i].b.Dominates(eds[j].b) })
+	if len(eds) > 3 {
+		eds = eds[len(eds)-3:] // the three innermost guards identify the site
+	}
+	for _, ed := range eds {
+		t, neg, ok := condOf(ed.b)
+		if !ok {
+			continue
+		}
+		truth := ed.truth
+		if neg {
+			truth = !truth
+		}
+		if len(t) > 90 {
+			t = t[:90] + "…"
+		}
+		if truth {
+			parts = append(parts, t)
+		} else {
+			parts = append(parts, "!("+t+")")
+		}
+	}
+	if len(parts) == 0 {
+		return "[always]"
+	}
+	return "[" + strings.Join(parts, " ∧ ") + "]"
 }
